@@ -217,6 +217,8 @@ class CircularQueue:
 
     def maintain_last_element(self) -> None:
         """Clear all elements except the last one."""
+        if self.is_empty():
+            return
         self.first = self.last
         self.count = 1
 
